@@ -272,7 +272,7 @@ def isolation_table(ctx: Ctx):
     ctx.stats["isolation_streams"] = n
 
 
-def reparse_rule(ctx: Ctx):
+def reparse_rule(ctx: Ctx, RULE: str = "R11.7"):
     """R11.7: wrapping a raw packet for parsing must not share the bit cursor with it: parsing the same raw packet twice
     (a second definition parsing the raw packets of a headers-only pass; a user re-parsing err.partial_data.raw_data)
     gives the same result and leaves the raw packet's own cursor untouched."""
@@ -291,11 +291,11 @@ def reparse_rule(ctx: Ctx):
         pos_raw = raw.attrs.get("pos", 0)
         same_obj = p1.attrs.get("raw_data") is raw or p2.attrs.get("raw_data") is p1.attrs.get("raw_data")
         ok = k1 == "ok" and k2 == "ok" and v1 == v2 and pos_raw == 0 and not same_obj
-        ctx.decide(ok, "R11.7", site, "each parsed packet owns a fresh cursor",
+        ctx.decide(ok, RULE, site, "each parsed packet owns a fresh cursor",
                    f"two packets built from the same raw bytes share a cursor: first read {v1!r}, second read {v2!r}, the raw packet's own "
                    f"cursor is now {pos_raw}: parsing one packet changes the result of parsing it again")
     except (Unsupported, Raised) as e:
-        ctx.unknown("R11.7", site, str(e))
+        ctx.unknown(RULE, site, str(e))
 
 
 def check(ctx: Ctx) -> None:
